@@ -44,6 +44,39 @@ def main():
     chk.cov["distinct_nontrivial"] = res["byacc"].get("yes", 0) + res["byacc"].get("tree+error", 0)
     for m in res["language"]:
         chk.violation({"input": m["input"], "what": m["what"], "spec": m["spec"], "impl": m["impl"]})
+    # long inputs of the language, too long for the model to run: membership and tree are known by construction (the grammar puts
+    # no bound on the length of a chain, on the number of leading nots or on the depth of quantifier nesting)
+    sys.setrecursionlimit(20000)
+    m = vlib.match
+    def chain(op, n):
+        t = m(["b"], "==", "2")
+        for _ in range(n):
+            t = {"t": op, "l": m(["a"], "==", "1"), "r": t}
+        return ("a == 1 %s " % op) * n + "b == 2", t
+    def nest(n):
+        t, text = m(["x"], "==", "1"), "x == 1"
+        for _ in range(n):
+            t = {"t": "coll", "op": "any", "sel": {"ty": "bexpr", "path": ["x"]}, "mode": "default", "n1": "x", "n2": "", "e": t}
+            text = "any x as x { " + text + " }"
+        return text, t
+    longs = [chain("and", 1100), chain("or", 1100), ("not " * 1201 + "a == 1", {"t": "not", "e": m(["a"], "==", "1")}), ("not " * 1200 + "a == 1", m(["a"], "==", "1")),
+             nest(150), ("a." + "b." * 1500 + "c == 1", m(["a"] + ["b"] * 1500 + ["c"], "==", "1")),
+             ('a == "' + "x" * 5000 + '"', m(["a"], "==", "x" * 5000)), ("a" * 3000 + " is empty", m(["a" * 3000], "empty"))]
+    if not quick:
+        longs += [chain("and", 5000), chain("or", 5000), nest(400), ("not " * 9001 + "a == 1", {"t": "not", "e": m(["a"], "==", "1")})]
+    with open(os.path.join(wd, "long.ndjson"), "w") as fh:
+        for text, tree in longs:
+            t = pegrun.peg_tree(tree, lambda x: x)
+            fh.write(json.dumps({"inp": list(text), "obs": {"acc": "?"}, "cnt": 0, "errs": 0, "bud": {}, "seed": 0, "rt": True, "tree": t}) + "\n")
+    vlib.harness(["parse", "-cases", os.path.join(wd, "long.ndjson"), "-out", os.path.join(wd, "long.json"), "-shapes=false"])
+    lres = json.load(open(os.path.join(wd, "long.json")))
+    vlib.log("c15: %d long inputs with membership and tree known by construction: %d not read as such" % (lres["inputs"], len(lres.get("round") or [])))
+    for mm in lres.get("round") or []:
+        impl = mm["impl"] if isinstance(mm["impl"], dict) else {}
+        chk.violation({"input": mm["input"][:100] + "... (%d bytes)" % len(mm["input"]), "what": "a long input of the language is not accepted with the tree it denotes",
+                       "spec": "accepted", "impl": {"acc": impl.get("acc"), "err": str(impl.get("err", ""))[:300]}})
+    chk.cov["evaluations"] += lres["inputs"]
+    chk.notes["long_inputs_by_construction"] = lres["inputs"]
     for s in res["samples"]:
         chk.sample(s)
     chk.notes["by_verdict"] = res["byacc"]
